@@ -137,9 +137,9 @@ Proof.
 Qed.
 
 Lemma cs3_const sc c : wf3 (YConst c) sc -> compile_static3 sc (YConst c).
-Proof. intros [Hs Hd]. apply (cs3_datum sc (YConst c) c); [intros; apply compile_const_eq; exact Hs|exact Hd]. Qed.
+Proof. intros [Hs Hd]. apply (cs3_datum sc (YConst c) c); [intros; apply compile_const_eq; [exact Hs|exact Hd]|exact Hd]. Qed.
 Lemma cs3_quote sc d : wf3 (YQuote d) sc -> compile_static3 sc (YQuote d).
-Proof. intros Hd. apply (cs3_datum sc (YQuote d) d); [intros; apply compile_quote_form|exact Hd]. Qed.
+Proof. intros Hd. apply (cs3_datum sc (YQuote d) d); [intros; apply compile_quote_form; exact Hd|exact Hd]. Qed.
 
 (* ============================================================ variables *)
 Lemma cs3_var sc x : wf3 (YVar x) sc -> compile_static3 sc (YVar x).
